@@ -27,3 +27,35 @@ with open('C03Data.lean','w') as f:
     f.write(bst('cfTree',cf,'cfT'))
     f.write(bst('orbTree',orb,'orbT'))
     f.write('end Gen\n')
+
+# ---- second data file of the spikes (Proof/CandData.lean): _UpperLower, _FoldMapExcludingUpperLower and
+# unicode.SimpleFold ("next.txt": lines "<rune> <SimpleFold(rune)>" for runes with SimpleFold(r) != r)
+def bst2(name, ents, prefix, ty='T'):
+    defs=[]; cnt=[0]
+    def build(lo,hi):
+        if lo>=hi: return '.leaf'
+        mid=(lo+hi)//2
+        e=ents[mid]
+        l=build(lo,mid); r=build(mid+1,hi)
+        ex='(.node '+l+' '+' '.join(str(v) for v in e)+' '+r+')'
+        if 16<=hi-lo<48:
+            nm=f'{prefix}{cnt[0]}'; cnt[0]+=1
+            defs.append(f'def {nm} : {ty} := {ex}')
+            return nm
+        return ex
+    root=build(0,len(ents))
+    return '\n'.join(defs)+f'\ndef {name} : {ty} := {root}\n'
+m=re.search(r'var _UpperLower = \[8192\]\[2\]uint32\{(.*?)\n\}',src,re.S)
+ul=sorted((int(s),int(a,16),int(b,16)) for s,a,b in re.findall(r'(\d+):\s*\{0x([0-9A-F]+), 0x([0-9A-F]+)\}',m.group(1)))
+m=re.search(r'var _FoldMapExcludingUpperLower = \[256\]struct \{.*?\}\{(.*?)\n\}',src,re.S)
+fme=sorted((int(s),int(r,16),int(a,16),int(b,16)) for s,r,a,b in re.findall(r'(\d+):\s*\{0x([0-9A-F]+), \[2\]uint16\{0x([0-9A-F]+), 0x([0-9A-F]+)\}\}',m.group(1)))
+nxt=sorted((int(l.split()[0]),int(l.split()[1]),1) for l in open('next.txt'))
+seeds=dict(re.findall(r'const (_\w+(?:Seed|Shift)) = (0x[0-9A-F]+|\d+)',src))
+with open('CandData.lean','w') as f:
+    f.write('import Proof.C03Data\ninductive T3 where\n  | leaf : T3\n  | node (l : T3) (k a b c : Nat) (r : T3) : T3\n\nnamespace Gen\n')
+    f.write(bst2('ulTree',ul,'ulT'))
+    f.write(bst2('fmeTree',fme,'fmeT',ty='T3'))
+    f.write(bst2('nextTree',nxt,'nxT'))
+    f.write(f"def ulSeed : Nat := {int(seeds['_UpperLowerSeed'],16)}\ndef ulShift : Nat := {seeds['_UpperLowerShift']}\n")
+    f.write(f"def fmSeed : Nat := {int(seeds['_FoldMapSeed'],16)}\ndef fmShift : Nat := {seeds['_FoldMapShift']}\n")
+    f.write('end Gen\n')
